@@ -77,6 +77,7 @@ struct Inner {
     /// the prefix stopped matching after the candidate set had grown in this process; the rest
     /// of this execution follows the default choices (a valid schedule, not the intended one)
     diverged: bool,
+    shared_at_start: Vec<u64>,
 }
 
 pub struct Sched {
@@ -116,6 +117,7 @@ pub fn sched() -> &'static Sched {
                 shared: Some(BTreeSet::new()),
                 grew: false,
                 diverged: false,
+                shared_at_start: vec![],
             }),
             cv: Condvar::new(),
         }));
@@ -444,6 +446,9 @@ pub struct ExecResult {
     pub panics: Vec<(usize, String)>,
     pub grew: bool,
     pub diverged: bool,
+    /// the candidate-object set in force when this execution started (a replay must start from
+    /// exactly this set: choice points are counted over candidates only)
+    pub shared_at_start: Vec<u64>,
 }
 
 /// Runs `bodies` (one closure per controlled thread) under the schedule given by `prefix`
@@ -475,6 +480,7 @@ pub fn run_execution(prefix: &[usize], bodies: Vec<Box<dyn FnOnce() + Send>>) ->
         g.open_gates.clear();
         g.grew = false;
         g.diverged = false;
+        g.shared_at_start = g.shared.as_ref().map(|s| s.iter().copied().collect()).unwrap_or_default();
     }
     let panics: std::sync::Arc<Mutex<Vec<(usize, String)>>> = Default::default();
     let mut handles = vec![];
@@ -564,6 +570,7 @@ pub fn run_execution(prefix: &[usize], bodies: Vec<Box<dyn FnOnce() + Send>>) ->
         panics: panics.lock().unwrap().clone(),
         grew: g.grew,
         diverged: g.diverged,
+        shared_at_start: g.shared_at_start.clone(),
     };
     *LAST_EXEC.lock().unwrap_or_else(|e| e.into_inner()) = Some(r.clone());
     r
@@ -622,6 +629,13 @@ pub fn shared_ids() -> Vec<u64> {
     g.shared.as_ref().map(|s| s.iter().copied().collect()).unwrap_or_default()
 }
 
+/// replaces the candidate set (replay)
+pub fn reset_shared(ids: &[u64]) {
+    let s = sched();
+    let mut g = s.inner.lock().unwrap();
+    g.shared = Some(ids.iter().copied().collect());
+}
+
 pub fn preload_shared(ids: &[u64]) {
     let s = sched();
     let mut g = s.inner.lock().unwrap();
@@ -643,6 +657,9 @@ pub struct ExploreStats {
     pub with_preemption: u64,
     pub observations: BTreeMap<String, u64>,
     pub failures: Vec<(Vec<usize>, String)>,
+    /// per entry of `failures`: the candidate set its execution started with
+    #[serde(default)]
+    pub failure_sets: Vec<Vec<u64>>,
     pub capped: bool,
     pub restarts: u64,
     #[serde(default)]
@@ -666,8 +683,11 @@ impl ExploreStats {
         for (k, v) in o.observations {
             *self.observations.entry(k).or_default() += v;
         }
+        let mut sets = o.failure_sets.into_iter();
         for f in o.failures {
+            let set = sets.next().unwrap_or_default();
             if self.failures.len() < 50 {
+                self.failure_sets.push(set);
                 self.failures.push(f);
             }
         }
@@ -705,6 +725,7 @@ pub fn explore_subtree(run: &mut RunFn, root: Vec<usize>, bound: usize, cap: u64
             Ok(obs) => *st.observations.entry(obs).or_default() += 1,
             Err(e) => {
                 if st.failures.len() < 50 {
+                    st.failure_sets.push(x.shared_at_start.clone());
                     st.failures.push((choices.clone(), e));
                 }
             }
@@ -724,8 +745,12 @@ pub fn explore_subtree(run: &mut RunFn, root: Vec<usize>, bound: usize, cap: u64
                     // the verdict of an aborted execution says nothing
                     if let Some(pos) = st.failures.iter().rposition(|(c, _)| *c == choices) {
                         st.failures.remove(pos);
+                        if pos < st.failure_sets.len() {
+                            st.failure_sets.remove(pos);
+                        }
                     }
                 } else {
+                    st.failure_sets.push(x.shared_at_start.clone());
                     st.failures.push((choices.clone(), a.clone()));
                 }
                 continue;
@@ -761,7 +786,10 @@ pub fn frontier(run: &mut RunFn, bound: usize, st: &mut ExploreStats) -> Vec<Vec
     let choices: Vec<usize> = x.trace.iter().map(|p| p.chosen).collect();
     match verdict {
         Ok(obs) => *st.observations.entry(obs).or_default() += 1,
-        Err(e) => st.failures.push((choices.clone(), e)),
+        Err(e) => {
+            st.failure_sets.push(x.shared_at_start.clone());
+            st.failures.push((choices.clone(), e));
+        }
     }
     let mut roots = vec![];
     if bound == 0 {
